@@ -55,6 +55,8 @@ mod __vx_leafcheck {
         "start S struct S terminal T { $A : ( ) }",
         "start S struct S ( $A ) struct U ( U $A ) struct W ( $A ) terminal T { $A : ( ) }",
         "start S enum S { } terminal T { $A : ( ) }",
+        "start S struct S { t : $T x : X e : E } struct X enum E { } terminal K { $T : ( ) }",
+        "start S enum S { A ( $T E ) B ( E $T ) C ( X E X ) } struct X ( $T ) enum E { } enum F { } terminal K { $T : ( ) }",
         "start List enum List { Nil Cons ( $N List ) } terminal T { $N : i32 }",
         "start List enum List { Nil Snoc ( List $N ) } terminal T { $N : i32 }",
         "start E enum E { Add ( E $Plus T ) Term ( T ) } enum T { Mul ( T $Star F ) Fac ( F ) } enum F { Par ( $L E $R ) Num ( $N ) } terminal Tok { $Plus : ( ) $Star : ( ) $L : ( ) $R : ( ) $N : u64 }",
@@ -66,6 +68,8 @@ mod __vx_leafcheck {
         "start S struct S ( A $Y A ) enum A { X ( $X ) E } terminal T { $X : ( ) $Y : ( ) }",
         "start Json enum Json { Obj ( Obj ) Arr ( Arr ) Str ( $Str ) } struct Obj { _ : $LC entries : Entries _ : $RC } enum Entries { None0 Some0 ( Entry Rest ) } enum Rest { End More ( $Comma Entry Rest ) } struct Entry { key : $Str _ : $Colon val : Json } struct Arr ( $LS $RS ) terminal Token { $Str : String $LC : ( ) $RC : ( ) $LS : ( ) $RS : ( ) $Comma : ( ) $Colon : ( ) }",
         "terminal T { $A : ( ) } struct S { a : $A } start S",
+        "struct Atom ( $N ) start Sum terminal Tok { $N : u8 $Plus : ( ) } enum Sum { One ( Atom ) More ( Sum $Plus Atom ) } struct Unused ( Atom )",
+        "enum Helper { H ( $A ) } struct Other { h : Helper } start Top struct Top ( Other Helper )  terminal T { $A : ( ) }",
         "start S enum S { P ( _ : $P X ) Q ( _ : $Q X ) R ( _ : $Q Y ) } struct X ( _ : $A _ : $B ) struct Y ( _ : $A _ : $C ) terminal Token { $P : ( ) $Q : ( ) $A : ( ) $B : ( ) $C : ( ) }",
         "start S enum S { A ( $A X $A ) B ( $B X $B ) C ( $A Y $B ) } enum X { One ( $C ) More ( X $C ) } enum Y { One ( $C $C ) } terminal T { $A : ( ) $B : ( ) $C : ( ) }",
     ];
@@ -1304,7 +1308,7 @@ mod __vx_leafcheck {
         fam.extend(random_grammars(if thorough() { 6000 } else { 1200 }));
         fam.iter().map(|c| tokens(c)).collect()
     }
-    /// pseudo-random files over nonterminals N0..N3 (N0 the start symbol; struct or enum of 1..3 variants; right-hand sides of 0..3 symbols, biased
+    /// pseudo-random files over nonterminals N0..N3 (any of them the start symbol; struct or enum of 0..3 variants; right-hand sides of 0..3 symbols, biased
     /// towards short and nullable ones) and terminals $A..$C; the generator is a fixed LCG seeded with VERIF_SEED (default 1)
     fn random_grammars(count: usize) -> Vec<String> {
         let mut x: u64 = std::env::var("VERIF_SEED").ok().and_then(|s| s.parse::<u64>().ok()).unwrap_or(1).wrapping_mul(0x9E37_79B9_7F4A_7C15) | 1;
@@ -1319,11 +1323,12 @@ mod __vx_leafcheck {
                 let syms: Vec<String> = (0..len).map(|_| { let k = next((n_nt + n_t) as u64) as usize; if k < n_nt { format!("N{}", k) } else { format!("${}", ["A", "B", "C"][k - n_nt]) } }).collect();
                 format!("( {} )", syms.join(" "))
             };
-            let mut text = String::from("start N0");
+            // the start symbol is any of the nonterminals, not necessarily the first one declared
+            let mut text = format!("start N{}", next(n_nt as u64));
             for i in 0..n_nt {
                 if next(3) == 0 { text.push_str(&format!(" struct N{} {}", i, rhs(&mut next))); }
                 else {
-                    let nv = 1 + next(3) as usize;
+                    let nv = [0, 1, 1, 2, 2, 3][next(6) as usize];      // a variant-less enum now and then
                     let vs: Vec<String> = (0..nv).map(|v| format!("V{} {}", v, rhs(&mut next))).collect();
                     text.push_str(&format!(" enum N{} {{ {} }}", i, vs.join(" ")));
                 }
